@@ -251,7 +251,9 @@ def run_impl(ctx, case, want_file_checks=True):
     o.hdr0 = hdr_view(hl[0].header)
     o.hdr0_tokens = hdr_tokens(hl[0].header)
     tmp = ctx.tmpdir()
-    tag = f"{rows}_{cols}_{f}_{kind}_{pattern}"
+    run_impl.n = getattr(run_impl, 'n', 0) + 1
+    tag = f"{run_impl.n}_{rows}_{cols}_{f}_{kind}_{pattern}"
+    o.files = []
     cpath = os.path.join(tmp, f"c_{tag}.fits")
     try:
         o.stage = 'compress'
@@ -287,6 +289,7 @@ def run_impl(ctx, case, want_file_checks=True):
                 return o
             o.ehdr, o.edata = res[0].header.copy(), np.array(res[0].data)
         o.cpath = cpath if (io == 'file' or want_file_checks) else None
+        o.files = [p for p in (cpath, os.path.join(tmp, f"i_{tag}.fits"), os.path.join(tmp, f"e_{tag}.fits"))]
     except Exception as e:  # noqa
         o.error = f"{type(e).__name__}: {e}"
     return o
@@ -356,6 +359,9 @@ def run_cases(ctx, cases, use_driver=True, consumers=True):
         judge(ctx, case, o, {k: outs[i] for k, i in slot.items()})
         if consumers and o.error is None:
             check_consumers(ctx, case, o)
+        for p in getattr(o, 'files', []):
+            if os.path.exists(p):
+                os.unlink(p)
         cls = classify(case)
         ctx.count(cls)
         ctx.count('hdr:' + case['kind'])
@@ -596,6 +602,45 @@ def malformed(ctx):
 
 
 # ---------------------------------------------------------------------------------------------
+# open known finding C15-nan-bleed: a NaN node turns its finite neighbours into NaN (0 * NaN)
+# ---------------------------------------------------------------------------------------------
+
+NAN_WITNESS = dict(rows=7, cols=7, f=3, nan_at=[3, 3])
+
+
+def nan_witness(ctx):
+    """BANE maps carry NaN where the image is blank.  RegularGridInterpolator multiplies the far corner of a
+    cell by weight 0, and 0*NaN = NaN, so every decimation node whose cell (towards higher indices) has a NaN
+    corner comes back NaN although its own value is finite.  Outside the ordered-field model; recorded as an
+    open known finding.  The failure is reported only once known_findings.json knows the finding's id (so that
+    the line is KNOWN-FINDING, never a new VIOLATION, whatever order files are integrated in)."""
+    from astropy.io import fits
+    from AegeanTools import fits_tools
+    w = NAN_WITNESS
+    img = np.arange(w['rows'] * w['cols'], dtype=np.float32).reshape(w['rows'], w['cols'])
+    img[tuple(w['nan_at'])] = np.nan
+    try:
+        out = np.array(fits_tools.expand(fits_tools.compress(make_hdulist(img, 'cdelt'), w['f']))[0].data)
+    except Exception as e:  # noqa
+        ctx.note(f"NaN witness: compress/expand raised {type(e).__name__}: {e}")
+        return
+    f = w['f']
+    lost = [(r, c) for r in range(0, w['rows'], f) for c in range(0, w['cols'], f)
+            if np.isfinite(img[r, c]) and not (out.shape == img.shape and out[r, c] == img[r, c])]
+    ctx.count('nan-witness')
+    ctx.case(dict(w, lost_nodes=[list(x) for x in lost]))
+    if lost:
+        known_ids = {e.get('id') for e in common.load_known('C15')}
+        detail = (f"image with one NaN pixel at node {tuple(w['nan_at'])}: the finite decimation nodes {lost} come back "
+                  f"NaN after compress+expand (0*NaN in the bilinear sum)")
+        if 'C15-nan-bleed' in known_ids:
+            ctx.fail('spec', dict(w, lost_nodes=[list(x) for x in lost]), detail,
+                     dict(site='expand', what='node', nan_neighbour=True))
+        else:
+            ctx.note("open finding C15-nan-bleed reproduced (not yet in known_findings.json): " + detail)
+
+
+# ---------------------------------------------------------------------------------------------
 # SR6 command line (thorough)
 # ---------------------------------------------------------------------------------------------
 
@@ -711,7 +756,7 @@ def case_set(ctx):
         elif mode == 2:
             f = rng.choice([d for d in range(1, 41) if rows % d == 0 or cols % d == 0])   # exact multiples on an axis
         else:
-            f = rng.randint(min(rows, cols), 64)                    # factor >= size
+            f = max(1, min(64, min(rows, cols) + rng.randint(-2, 2)))   # factor about the size of the image
         cases.append(mk(rows, cols, f, rng.choice(KINDS), 'file' if k % 5 == 0 else 'hdu',
                         rng.choice(['random', 'nodal', 'nodal', 'affine']), rng.randint(0, 10 ** 6)))
     return cases
@@ -725,6 +770,7 @@ def run(ctx):
     for k in range(0, len(cases), 400):
         run_cases(ctx, cases[k:k + 400])
     malformed(ctx)
+    nan_witness(ctx)
     if not ctx.quick:
         sr6_cases(ctx, [c for k, c in enumerate(cases) if k % 9 == 0][:300])
         sweep(ctx, thorough=True)
@@ -736,10 +782,8 @@ def sweep(ctx, thorough):
     fs = list(range(1, 65))
     found = False
     shapes = sorted(itertools.product(range(2, top + 1), repeat=2), key=lambda s: (s[0] + s[1], s))
-    if thorough:
-        # all shapes 2..40 x 2..40; factors: all 1..64 for a third of the shapes (rotating with the seed), a
-        # spread of 12 factors for the rest
-        pass
+    # thorough: all shapes 2..40 x 2..40; every factor 1..64 for a third of the shapes (rotating with the seed), a
+    # spread of about a dozen factors (1, 2, 3, around the size, divisors, 63, 64) for the rest
     for n, (rows, cols) in enumerate(shapes):
         if thorough and (n + ctx.seed) % 3:
             use = sorted(set([1, 2, 3, rows - 1, rows, rows + 1, cols - 1, cols, cols + 1, 63, 64] +
@@ -790,6 +834,8 @@ def replay(ctx, rec):
     elif 'rows' in c and 'f' in c and 'kind' in c:
         run_cases(ctx, [mk(c['rows'], c['cols'], c['f'], c['kind'], c.get('io', 'hdu'), c.get('pattern', 'random'),
                            c.get('imgseed', 0))])
+    elif 'nan_at' in c:
+        nan_witness(ctx)
     else:
         index_cases(ctx, 50)
         malformed(ctx)
